@@ -133,7 +133,7 @@ func genWire() {
 	}
 	lf.def("pgMessageTypes", "List (String × Nat)", "[\n  "+strings.Join(types, ",\n  ")+"]", "message type bytes (pg_decryptor.go const block)")
 	// NullColumnValue int32 = -1
-	if i, ok := signedConst("decryptor/postgresql/packet_handler.go", "NullColumnValue", env); ok {
+	if i, ok := wireSignedConst("decryptor/postgresql/packet_handler.go", "NullColumnValue", env); ok {
 		lf.def("pgNullColumnValue", "Int", fmt.Sprint(i), "NullColumnValue (length marker of a NULL column)")
 	} else {
 		fail("%s: NullColumnValue not found", pg)
@@ -307,7 +307,7 @@ func genWire() {
 }
 
 // signedConst evaluates a constant declared as `Name T = -k` or `Name T = k` (the shared evaluator has no unary minus).
-func signedConst(rel, name string, env *constEnv) (int64, bool) {
+func wireSignedConst(rel, name string, env *constEnv) (int64, bool) {
 	f := parseFile(rel)
 	if f == nil {
 		return 0, false
